@@ -4,7 +4,7 @@
 (* on every input up to the bound and (2) printed as one JSON behaviour with *)
 (* the spec's expected result of every API call, to be replayed into the     *)
 (* real code.                                                                *)
-EXTENDS Gen, Beh
+EXTENDS Gen, Beh, Laws
 
 CONSTANTS EmitMode, Variants
 
@@ -55,6 +55,9 @@ LvAll == {Chr(97), Chr(10), Chr(40), Chr(45), Dot, BolL, EolL, Bref(1), Cls(FALS
           Bare([t |-> "p", neg |-> FALSE, name |-> "Lu"]), Bare([t |-> "p", neg |-> TRUE, name |-> "N"]),
           Bare([t |-> "b", neg |-> FALSE, name |-> <<71, 114, 101, 101, 107>>]),
           Bare(IE("i")), Bare(IE("C")), Chr(36), Chr(92)}
+LvLaws == {Chr(97), Chr(98), Dot, Cls(FALSE, <<IC(97), IC(98)>>), BolL, Bref(1)}
+QLaws == {QStar, QPlus, QOpt, QPlusL, Q(0, 0, FALSE, "n"), Q(2, 2, FALSE, "n"), Q(1, 2, FALSE, "n"), Q(2, -1, FALSE, "n"),
+          Q(0, 2, TRUE, "n"), Q(1, -1, FALSE, "n")}
 LvAstral == {Chr(66560), Chr(769), Chr(97), Dot, Cls(FALSE, <<IC(66560), IC(97)>>)}
 LvLoop == {Chr(97), Chr(98), BolL, EolL, Bref(1)}
 FlagsM == {NoFlags, Fl(FALSE, TRUE, FALSE)}
@@ -113,7 +116,25 @@ Sources(a, F) ==
   (IF "base" \in Variants THEN {<<pat, FlagCps(F), TRUE>>} ELSE {})
   \cup (IF "xsd" \in Variants THEN {<<pat, FlagCps(F), FALSE>>} ELSE {})
   \cup (IF "ws" \in Variants THEN WsSources(pat, F) ELSE {})
-Emit == Done => (EmitMode = "none" \/ \A src \in Sources(Ast, fl) : PrintSrc(src))
+(* law pairs (C20): both spellings are replayed together and must agree with the spec AND with each other *)
+LawPairs(a, F) == {w \in Rewrites(a) : w.law # "uncapture" \/ ~HasBref(a)}
+PrintPair(a, w, F) ==
+  LET b1 == BehOfSrc(<<Render(a), FlagCps(F), TRUE>>)
+      b2 == BehOfSrc(<<Render(Number(w.ast).r), FlagCps(F), TRUE>>)
+  IN IF b1 = <<>> \/ b2 = <<>> THEN TRUE
+     ELSE PrintT(<<"P", ToJson([a |-> b1, b |-> b2, same |-> w.same, law |-> w.law])>>)
+Emit == Done => (EmitMode = "none" \/ (/\ \A src \in Sources(Ast, fl) : PrintSrc(src)
+                                       /\ ("laws" \in Variants => \A w \in LawPairs(Ast, fl) : PrintPair(Ast, w, fl))))
+
+(* T16 (C20): every law preserves the language on every input, and the ordered-choice match list where claimed *)
+T16_Laws == Done => \A w \in LawPairs(Ast, fl) :
+  LET n == Number(w.ast)  b == n.r  ngb == n.st.ng IN
+  /\ Parse(Render(b), TRUE).v = "ok" /\ Parse(Render(b), TRUE).ast = b             \* the rewrite is well-formed
+  /\ \A s \in Inputs :
+       /\ IsMatch(Ast, Ng, s, fl) = IsMatch(b, ngb, s, fl)
+       /\ (Strict(Ast) /\ Strict(b) /\ ~Nullable(Ast, Ng, fl) /\ ~(HasBref(Ast) /\ IterAmbig(Ast))) =>
+             LET ma == AllMatches(Ast, Ng, s, fl)  mb == AllMatches(b, ngb, s, fl) IN
+             [j \in 1..Len(ma) |-> <<ma[j].st, ma[j].en>>] = [j \in 1..Len(mb) |-> <<mb[j].st, mb[j].en>>]
 
 (* T11 (C14): under flag x, white space inserted outside class expressions changes nothing; inside a class    *)
 (* expression it is kept.  Stated on the parser: Parse(Strip(p')) = Parse(p) whenever the insertion point is *)
